@@ -1114,7 +1114,7 @@ pub fn gen_case(rng: &mut Rng, kind: &str, o: &GenOpts) -> ConcCase {
         // reservation churn
         "K4" => {
             cfg = Config {
-                frames: rng.range(2, 4) * TREE_FRAMES - if rng.chance(1, 3) { rng.range(1, HUGE_FRAMES) } else { 0 },
+                frames: rng.range(2, 4) * TREE_FRAMES - if rng.chance(1, 3) { rng.range(1, HUGE_FRAMES - 1) } else { 0 },
                 alloc_all: false,
                 kind: ck,
                 slots: (0..ck.classes()).map(|_| rng.range(1, 3)).collect(),
@@ -1151,7 +1151,7 @@ pub fn gen_case(rng: &mut Rng, kind: &str, o: &GenOpts) -> ConcCase {
         // near exhaustion: sync / steal / demote and their undo paths
         "K5" => {
             cfg = Config {
-                frames: rng.range(1, 3) * TREE_FRAMES - if rng.chance(1, 3) { rng.range(1, HUGE_FRAMES) } else { 0 },
+                frames: rng.range(1, 3) * TREE_FRAMES - if rng.chance(1, 3) { rng.range(1, HUGE_FRAMES - 1) } else { 0 },
                 alloc_all: true,
                 kind: ck,
                 slots: (0..ck.classes()).map(|_| rng.range(1, 2)).collect(),
@@ -1219,7 +1219,7 @@ pub fn gen_case(rng: &mut Rng, kind: &str, o: &GenOpts) -> ConcCase {
         // freed into its global counter; the owner syncs while others drain / swap / steal the slot
         "K7" => {
             cfg = Config {
-                frames: rng.range(1, 2) * TREE_FRAMES - if rng.chance(1, 4) { rng.range(1, HUGE_FRAMES) } else { 0 },
+                frames: rng.range(1, 2) * TREE_FRAMES - if rng.chance(1, 4) { rng.range(1, HUGE_FRAMES - 1) } else { 0 },
                 alloc_all: true,
                 kind: ck,
                 slots: (0..ck.classes()).map(|_| rng.range(1, 2)).collect(),
